@@ -10,7 +10,7 @@
 //	VERIF_OUT    path of the JSONL trace to write (required)
 //	VERIF_REPLAY path of a JSON file holding {"inputs":[...]}: run exactly these
 //	             inputs instead of generating
-package harness
+package hx
 
 import (
 	"bufio"
@@ -132,7 +132,8 @@ type Emitter struct {
 }
 
 func NewEmitter(t *testing.T, path string) *Emitter {
-	f, err := os.Create(path)
+	// append: several drivers of one property may write to the same trace (check.py removes it first)
+	f, err := os.OpenFile(path, os.O_CREATE|os.O_WRONLY|os.O_APPEND, 0o644)
 	if err != nil {
 		t.Fatalf("VERIF_OUT: %v", err)
 	}
